@@ -208,6 +208,47 @@ def r22(ctx: Ctx) -> RuleReport:
     rep.add(f'{fi.fq}: every normal return stored the value', fi.loc(), 'violation' if skipped is not None else 'ok',
             (f'the setter can return without storing the value ({"; ".join(skipped) or "unconditionally"}): the graph keeps its old explicit top '
              f'(or stays with an implicit top that moves when the first triple changes)') if skipped is not None else '')
+    # the converse: a value that is acceptable (None, or one of the variables) does reach the store
+    def outcomes(assign: Dict[str, bool]) -> Set[str]:
+        out, seen, stack = set(), set(), [cfg.entry]
+        while stack:
+            n = stack.pop()
+            if n in seen:
+                continue
+            seen.add(n)
+            if n in store_ids:
+                out.add('store')
+                continue
+            node = cfg.nodes[n]
+            if node.kind == 'stmt' and isinstance(node.ast, ast.Raise):
+                out.add('raise')
+                continue
+            if n == cfg.exit:
+                out.add('return')
+                continue
+            for m, lab in cfg.succ[n]:
+                if lab == 'exc' or m == cfg.rexit:
+                    continue
+                if node.kind == 'cond' and norm(node.ast) in assign and (lab == 'T') != assign[norm(node.ast)]:
+                    continue
+                stack.append(m)
+        return out
+    cases = {
+        f'{p} is a variable of the graph': {f'{p} is None': False, f'{p} is not None': True, f'{p} in self.variables()': True, f'{p} not in self.variables()': False,
+                                            f'{p} == self.top': False, f'{p} == self._top': False},
+        f'{p} is None': {f'{p} is None': True, f'{p} is not None': False, f'{p} == self.top': False, f'{p} == self._top': False,
+                         f'{p} in self.variables()': False, f'{p} not in self.variables()': True},
+    }
+    for label, assign in cases.items():
+        got = outcomes(assign)
+        k3 = f'{fi.fq}: when {label} the value is stored'
+        if 'store' in got and 'raise' not in got:
+            rep.ok(k3, fi.loc())
+        elif 'raise' in got and 'store' not in got:
+            rep.violation(k3, fi.loc(), f'with {label} the setter ends in its raise statement and never stores: a legitimate top is refused '
+                          f'(re-topping a graph, or clearing the explicit top, raises GraphError)')
+        else:
+            rep.undecided(k3, fi.loc(), f'outcomes {sorted(got)}')
     raises = [n for n in walk_local(fi.node) if isinstance(n, ast.Raise) and isinstance(n.exc, ast.Call)]
     rep.add(f'{fi.fq}: refusal raises GraphError', fi.loc(), 'ok' if any(norm(r.exc.func) == 'GraphError' for r in raises) else 'undecided')
     # the variables() used is sources + explicit top
@@ -312,6 +353,36 @@ def r39(ctx: Ctx) -> RuleReport:
             good = True
     rep.add(f'{ior.fq}: new triples are appended in the order of other.triples', ior.loc(), 'ok' if good else 'undecided',
             '' if good else 'self.triples is not extended by a filter over other.triples')
+    # ... and only triples that are not there yet (a union of sets of triples)
+    op = ior.positional[1]
+    for c in ext:
+        a = c.args[0] if c.args else None
+        if isinstance(a, ast.Name):
+            a = single_def(ctx, ior, a)
+        if not (isinstance(a, (ast.GeneratorExp, ast.ListComp)) and len(a.generators) == 1 and norm(a.generators[0].iter) == f'{op}.triples'):
+            continue
+        g0 = a.generators[0]
+        tv = norm(g0.target)
+        k2 = f'{ior.fq}: only triples that are not yet in the graph are appended'
+        conds = [x for x in g0.ifs if not (isinstance(x, ast.Constant) and x.value is True)]
+        if not conds:
+            rep.violation(k2, ior.loc(c), f'every triple of {op}.triples is appended, also those the graph already has: g | g has every triple twice, so union is not a set operation')
+            continue
+        verdict = 'undecided'
+        for x in conds:
+            src = norm(x)
+            if src in (f'{tv} not in self.triples', f'{tv} not in set(self.triples)'):
+                verdict = 'ok'
+            elif isinstance(x, ast.Compare) and len(x.ops) == 1 and isinstance(x.ops[0], (ast.In, ast.NotIn)) and norm(x.left) == tv and isinstance(x.comparators[0], ast.Name):
+                d = single_def(ctx, ior, x.comparators[0])
+                ds = norm(d).replace(' ', '')
+                fresh = ds in (f'set({op}.triples)-set(self.triples)', f'set({op}.triples).difference(self.triples)', f'set({op}.triples).difference(set(self.triples))')
+                present = ds in ('set(self.triples)', 'self.triples', 'frozenset(self.triples)')
+                if (fresh and isinstance(x.ops[0], ast.In)) or (present and isinstance(x.ops[0], ast.NotIn)):
+                    verdict = 'ok'
+                elif (fresh and isinstance(x.ops[0], ast.NotIn)) or (present and isinstance(x.ops[0], ast.In)):
+                    verdict = 'violation'
+        rep.add(k2, ior.loc(c), verdict, 'the filter keeps exactly the triples the graph already has: nothing new is added, what is there is duplicated' if verdict == 'violation' else norm(conds[0])[:60])
     isub = ctx.repo.func(G, 'Graph.__isub__')
     good = False
     for n in walk_local(isub.node):
